@@ -728,8 +728,11 @@ def worker(job):
             'sites': sites, 'abort_sites': abort_sites, 'transitions': transitions}
 
 
-def minimise(sc, v, budget=120):
+def minimise(sc, v, budget=120, seconds=60.0):
+    """ddmin over the calls, within a budget of re-executions AND of real time (a history of a thousand
+    calls costs seconds per re-execution; an unminimised replay file is still a replay file)."""
     cls = v['class']
+    t_end = time.monotonic() + seconds
     if cls == 'timeout' and v['step'] < len(sc['calls']):
         # every re-execution costs the whole CPU budget: try the failing call alone, nothing else
         single = dict(sc)
@@ -742,6 +745,8 @@ def minimise(sc, v, budget=120):
     calls = sc['calls'][:v['step'] + 1] if v['step'] < len(sc['calls']) else list(sc['calls'])
 
     def fails(sub):
+        if time.monotonic() > t_end:
+            return False
         t = dict(sc)
         t['calls'] = [dict(c, fault=dict(c['fault']) if c.get('fault') else None) for c in sub]
         if v['step'] < len(sc['calls']):
@@ -754,6 +759,13 @@ def minimise(sc, v, budget=120):
 
     if not fails(calls):
         return sc, v
+    if len(calls) > 200:
+        # a long history: first try its two ends (the early texts, the late repetitions)
+        for head in (40, 200):
+            cand = calls[:head] + calls[-40:]
+            if fails(cand):
+                calls = cand
+                break
     small = core.ddmin(calls, fails, budget=budget)
     for i in range(len(small)):
         if small[i].get('fault'):
